@@ -44,6 +44,15 @@ type batch struct {
 var plans = map[string][]batch{
 	"C03": {{Driver: "C03", Build: "plain", Quick: 6000, Thor: 240000}},
 	"C06": {{Driver: "C06", Build: "plain", Quick: 12000, Thor: 500000}},
+	"C10": {{Driver: "C10", Build: "plain", Quick: 4000, Thor: 160000},
+		{Driver: "C03", Build: "plain", Quick: 1200, Thor: 30000}, {Driver: "C06", Build: "plain", Quick: 2000, Thor: 50000},
+		{Driver: "C14", Build: "plain", Quick: 1200, Thor: 30000}, {Driver: "C15", Build: "plain", Quick: 2000, Thor: 50000},
+		{Driver: "C16", Build: "plain", Quick: 2000, Thor: 50000}, {Driver: "C12", Build: "plain", Quick: 4000, Thor: 100000},
+		{Driver: "C13", Build: "plain", Quick: 1500, Thor: 40000}, {Driver: "C19", Build: "plain", Quick: 2000, Thor: 50000}},
+	"C12": {{Driver: "C12", Build: "plain", Quick: 60000, Thor: 3000000}},
+	"C15": {{Driver: "C15", Build: "plain", Quick: 8000, Thor: 400000}},
+	"C16": {{Driver: "C16", Build: "plain", Quick: 20000, Thor: 1000000},
+		{Driver: "C16", Build: "plain", Quick: 10000, Thor: 500000, Env: []string{"JSONSCHEMAGODEBUG=typeschemasnull=1"}}},
 	"C13": {{Driver: "C13", Build: "plain", Quick: 8000, Thor: 400000}, {Driver: "C13", Build: "race", Quick: 1600, Thor: 60000}},
 	"C14": {{Driver: "C14", Build: "plain", Quick: 6000, Thor: 240000}},
 	"C19": {{Driver: "C19", Build: "plain", Quick: 8000, Thor: 400000}},
